@@ -11,6 +11,7 @@ import pandapipes as pp
 from pandapipes.pf import pipeflow_setup as ps
 
 ID = "C14"
+CASE_WEIGHT = 1   # relative cost of one case (pool sizing)
 LEVEL = "model_checking"
 RULE = ("state = (default layer, user layer, call layer) of option dictionaries; for every option key (all keys of the "
         "stored defaults + iter + an unknown key) all 2^2 presence patterns in user/call layers with pairwise distinct "
